@@ -78,8 +78,9 @@ def build(cfg):
     return shells
 
 
-def integrate(g, n, gam, h):
-    from gbasis.evals.density import evaluate_density, evaluate_posdef_kinetic_energy_density
+def integrate(g, n, gam, h, gam2=None):
+    from gbasis.evals.density import (evaluate_density, evaluate_density_using_evaluated_orbs,
+                                      evaluate_posdef_kinetic_energy_density)
     from gbasis.evals.eval import evaluate_basis
     from gbasis.evals.eval_deriv import evaluate_deriv_basis
 
@@ -90,6 +91,7 @@ def integrate(g, n, gam, h):
     Mo = np.zeros((n, n, len(ORD2)))
     T = np.zeros((n, n))
     rho = 0.0
+    rho2 = 0.0
     tp = 0.0
     calls = 0
     X, Y = np.meshgrid(ax, ax, indexing="ij")
@@ -111,9 +113,11 @@ def integrate(g, n, gam, h):
             D = evaluate_deriv_basis(g, pts, o)
             T += 0.5 * (D * w) @ D.T
         rho += float(np.sum(evaluate_density(gam, g, pts) * w))
+        if gam2 is not None:
+            rho2 += float(np.sum(evaluate_density_using_evaluated_orbs(gam2, P) * w))
         tp += float(np.sum(evaluate_posdef_kinetic_energy_density(gam, g, pts) * w))
         calls += 6
-    return S, Mo, T, rho, tp, calls
+    return S, Mo, T, rho, tp, calls, rho2
 
 
 def evaluate(cfg):
@@ -132,7 +136,8 @@ def evaluate(cfg):
     Ta = kinetic_energy_integral(g)
     Ma = moment_integral(g, np.zeros(3), np.array(ORD2))
     o.call(3)
-    S, Mo, T, rho, tp, calls = integrate(g, n, gam, 0.2)
+    gam2 = (X + X.T) / 2  # symmetric, indefinite (difference / spin density)
+    S, Mo, T, rho, tp, calls, rho2 = integrate(g, n, gam, 0.2, gam2)
     o.call(calls)
     td = np.sqrt(np.abs(np.diag(Ta)))
     tsc = np.outer(td, td)
@@ -143,10 +148,12 @@ def evaluate(cfg):
     o.cmp("grid kinetic == kinetic_energy_integral", T, Ta, TOL, tsc, key="grid-kinetic")
     o.cmp("grid density == tr(gamma S)", np.array(rho), np.array(np.sum(gam * Sa)), TOL,
           float(np.sum(np.abs(gam) * np.abs(Sa))), key="grid-density")
+    o.cmp("grid density of an indefinite symmetric matrix (evaluate_density_using_evaluated_orbs) == tr(gamma S)",
+          np.array(rho2), np.array(np.sum(gam2 * Sa)), TOL, float(np.sum(np.abs(gam2) * np.abs(Sa))), key="grid-density-indefinite")
     o.cmp("grid posdef KED == tr(gamma T)", np.array(tp), np.array(np.sum(gam * Ta)), TOL,
           float(np.sum(np.abs(gam) * tsc)), key="grid-ked")
     if cfg["kind"] == "convergence":
-        S2, _, T2, _, _, c2 = integrate(g, n, gam, 0.25)
+        S2, _, T2, _, _, c2, _ = integrate(g, n, gam, 0.25)
         o.call(c2)
         e1 = float(np.max(np.abs(S - Sa)))
         e2 = float(np.max(np.abs(S2 - Sa)))
